@@ -328,7 +328,8 @@ def _tok(ret):
     tok = ret.get("token") if isinstance(ret, dict) else None
     d = impl.token_decode(tok) if tok else None
     return {"hasToken": bool(tok), "ti": d[0] if d else 0, "tpath": list(d[1]) if d else [],
-            "tokenRoundTrip": (impl.token_roundtrip(tok) if tok else True)}
+            "tokenRoundTrip": (impl.token_roundtrip(tok) if tok else True),
+            "tokenIndep": (impl.token_indep(tok) if tok else True)}
 
 
 def _pagination(ix, driver, i, op, res):
